@@ -25,6 +25,9 @@ Definition logout_done (c : cfg) (s : step) : option string :=
   if r_has_http (s_req s) && matches_logout c (s_req s) then
     match s_resp s, s_trace s with
     | ODeny d, [(ERemove sid, AUnit true)] => if Nat.eqb (d_status d) 302 then Some sid else None
+    | ODeny d, [] =>
+        (* answered as a successful logout although the request carried a session cookie and nothing was removed *)
+        if Nat.eqb (d_status d) 302 && negb (String.eqb (sid_of c s) "") then Some (sid_of c s) else None
     | _, _ => None
     end
   else None.
@@ -40,7 +43,7 @@ Definition logout_answer_ok (c : cfg) (s : step) : bool :=
           match lookup "location" (d_headers d) with Some l => String.eqb l (match logout c with Some x => lo_redirect x | None => "" end) | None => false end &&
           match lookup "set-cookie" (d_headers d) with Some sc => String.eqb sc (set_cookie_header (cookie_prefix c) "deleted" MaxAge0) | None => false end in
         match s_trace s with
-        | [] => redirected
+        | [] => redirected && String.eqb (sid_of c s) ""      (* nothing to remove only when no session cookie was presented *)
         | [(ERemove _, AUnit true)] => redirected
         | [(ERemove _, AUnit false)] => negb (Nat.eqb (d_status d) 302) && session_error_resp (s_resp s)
         | _ => false
